@@ -33,11 +33,7 @@ func (m *PatternMatcher) Match(ident string, exactCase bool) bool {
 		m.exactCase = exactCase
 	}
 
-	s := ident
-	if !exactCase {
-		s = strings.ToLower(s)
-	}
-	return m.re.MatchString(s)
+	return m.re.MatchString(ident)
 }
 
 // compileRegexp compiles the given pattern into a regular expression.
@@ -50,7 +46,9 @@ func compileRegexp(pattern string, exactCase bool) (*regexp.Regexp, error) {
 		expr = fmt.Sprintf("^%v$", regexp.QuoteMeta(pattern))
 	}
 	if !exactCase {
-		expr = strings.ToLower(expr)
+		// Let the regexp engine fold case. Lower-casing the expression text would change the
+		// meaning of escapes and classes such as \S, \D, \PL or [A-Z].
+		expr = "(?i)" + expr
 	}
 	re, err := regexp.Compile(expr)
 	if err != nil {
